@@ -333,11 +333,78 @@ type SolveOpts struct {
 	Second   bool // also require a second solver (thorough)
 }
 
+// ubiquitous symbols do not link an assumption to a goal in the relevance filter
+func ubiquitous(sym string) bool {
+	switch sym {
+	case "alloc0", "slot", "dyntype", "slen", "sat":
+		return true
+	}
+	return strings.HasPrefix(sym, "in!") || strings.HasPrefix(sym, "alloc!")
+}
+
 func (x *Exec) scriptFor(o *Oblig, part int, forCVC5 bool, withModel bool) string {
+	return x.scriptForMode(o, part, forCVC5, withModel, false)
+}
+
+// scriptForMode: with relevant=true only assumptions connected to the goal through shared
+// (non-ubiquitous) symbols are kept (closure). Dropping assumptions is sound; it is used as a
+// second attempt for obligations whose full context overwhelms the solvers.
+func (x *Exec) scriptForMode(o *Oblig, part int, forCVC5 bool, withModel bool, relevant bool) string {
 	c := x.C
 	goal := o.Goal
 	if len(o.Parts) > 0 {
 		goal = o.Parts[part]
+	}
+	if relevant {
+		var cand []*Term
+		for i := 0; i < o.NAssume && i < len(x.assumes); i++ {
+			if x.assumes[i].From != o {
+				cand = append(cand, x.assumes[i].T)
+			}
+		}
+		syms := make([]map[string]bool, len(cand))
+		for i, t := range cand {
+			syms[i] = c.symbolsOf(t, nil)
+		}
+		rel := map[string]bool{}
+		for k := range c.symbolsOf(goal, nil) {
+			if !ubiquitous(k) {
+				rel[k] = true
+			}
+		}
+		keep := make([]bool, len(cand))
+		for changed := true; changed; {
+			changed = false
+			for i := range cand {
+				if keep[i] {
+					continue
+				}
+				hit := false
+				for k := range syms[i] {
+					if rel[k] {
+						hit = true
+						break
+					}
+				}
+				if hit {
+					keep[i] = true
+					changed = true
+					for k := range syms[i] {
+						if !ubiquitous(k) {
+							rel[k] = true
+						}
+					}
+				}
+			}
+		}
+		var asserts []*Term
+		for i, t := range cand {
+			if keep[i] {
+				asserts = append(asserts, t)
+			}
+		}
+		asserts = append(asserts, c.Not(goal))
+		return c.Script(asserts, nil, forCVC5)
 	}
 	var asserts []*Term
 	for i := 0; i < o.NAssume && i < len(x.assumes); i++ {
@@ -412,6 +479,20 @@ func SolveUnits(units []*UnitResult, opts SolveOpts) {
 					return j.u.Exec.scriptFor(o, j.part, cvc5, len(j.u.Exec.replayTerms) > 0)
 				}
 				r := Solve(mk, opts.TimeoutS, opts.Scratch, tag, "")
+				if r.Status != "unsat" && r.Status != "sat" && o.Kind != "vacuity" {
+					// second attempt: only the assumptions relevant to the goal (sound: fewer assumptions)
+					mk2 := func(cvc5 bool) string {
+						locks[j.u].Lock()
+						defer locks[j.u].Unlock()
+						return j.u.Exec.scriptForMode(o, j.part, cvc5, false, true)
+					}
+					r2 := Solve(mk2, opts.TimeoutS, opts.Scratch, tag+".rel", "")
+					if r2.Status == "unsat" {
+						r2.Solver += " (relevant assumptions only)"
+						r2.Seconds += r.Seconds
+						r = r2
+					}
+				}
 				mu.Lock()
 				results[o][j.part] = r
 				mu.Unlock()
